@@ -438,6 +438,58 @@ Definition prefix_a_panics (info : N -> tinfo) (o : opts) (d : list quad) : bool
   let s := process info o d in
   existsb (fun k => match aget N.eqb (uparent s) (snd k) with None => true | Some _ => false end) (seeds s).
 
+Section Prefix.
+Variable info : N -> tinfo.
+Variable o : opts.
+Variable s : st.
+(* (d) the original is_list_node: "possibly a rdf:List" *)
+Definition is_list_node_prefix (ps : props) : bool :=
+  (2 <=? length ps)%nat && (length ps <=? 3)%nat
+  && match get_prop ps (PIri c_first) with Some [_] => true | _ => false end
+  && match get_prop ps (PIri c_rest) with Some [ONode _] => true | _ => false end
+  && ((length ps =? 2)%nat
+      || match get_prop ps PType with Some [ONode k] => snd k =? c_List | _ => false end).
+(* mark_list_node with the single-graph test (b) and the rdf:List exclusion (d) switchable *)
+Fixpoint mark_prefix (single typed : bool) (fuel : nat) (m : marks) (k : nkey) : marks :=
+  match fuel with
+  | O => m
+  | S f =>
+    match aget N.eqb (uparent s) (snd k) with
+    | Some (Some (pk, pp)) =>
+        if mode10 o && (pp =? c_first) then m
+        else if gkey_eqb (fst pk) (fst k) && (if single then (ngraphs s (snd k) =? 1)%nat else true) then
+          if (if typed then is_list_node_prefix (get_node s k) else is_list_node (get_node s k)) then
+            let m' := mark_insert m k pk in
+            if is_blank info (snd pk) && (pp =? c_rest) then mark_prefix single typed f m' pk else m'
+          else m
+        else m
+    | _ => m
+    end
+  end.
+Definition mark_all_prefix (single typed : bool) : marks :=
+  fold_left (mark_prefix single typed (S (length (nodes s)))) (seeds s) [].
+(* (b) the original `list_node` was keyed by the blank node label alone: a label marked in one
+   graph is a list node in every graph (and as a graph name) *)
+Definition by_label (m : marks) : marks :=
+  m ++ flat_map (fun e => let k := fst e in
+                          if existsb (fun e' => snd (fst e') =? snd k) m
+                             && negb (existsb (fun e' => nkey_eqb (fst e') k) m)
+                          then [(k, k)] else []) (nodes s).
+(* (c) no removal of unanchored list nodes: the marks are used as they are *)
+(* (e) the original is_compound_literal, and no reference check *)
+Definition is_compound_literal_prefix (ps : props) : bool :=
+  (2 <=? length ps)%nat && (length ps <=? 3)%nat
+  && one_lit info (fun _ => true) (get_prop ps (PIri c_direction))
+  && one_lit info (fun _ => true) (get_prop ps (PIri c_value))
+  && ((length ps =? 2)%nat || one_lit info (fun _ => true) (get_prop ps (PIri c_language))).
+Definition compounds_prefix : list nkey :=
+  if compound o then filter (fun k => is_compound_literal_prefix (get_node s k)) (cands s) else [].
+End Prefix.
+(* the document of the original code (when it does not panic) *)
+Definition serialise_original (info : N -> tinfo) (o : opts) (d : list quad) : list jtop :=
+  let s := process info o d in
+  document info s (by_label s (mark_all_prefix info o s false true)) (compounds_prefix info o s).
+
 (* ---------- comparison of documents up to the order of keys, nodes and values ---------- *)
 Fixpoint jval_eqb (a b : jval) : bool :=
   match a, b with
@@ -503,10 +555,8 @@ Fixpoint nodupb (l : list N) : bool :=
   match l with [] => true | x :: r => negb (existsb (N.eqb x) r) && nodupb r end.
 Definition ids_of (d : list quad) : list N :=
   flat_map (fun q => qs q :: qp q :: qo q :: match qg q with Some g => [g] | None => [] end) d.
-Definition roundtrip_ok (t : table) (o : opts) (d : list quad) (base : N) : bool :=
-  let info := info_of t in
+Definition roundtrip_doc_ok (info : N -> tinfo) (d : list quad) (base : N) (doc : list jtop) : bool :=
   let expected := filter (is_jsonld info) d in
-  let doc := serialise info o d in
   let r := witness base doc in
   let back := map (rename_q r) (to_rdf base doc) in
   subset_q back expected && subset_q expected back
@@ -516,3 +566,50 @@ Definition roundtrip_ok (t : table) (o : opts) (d : list quad) (base : N) : bool
   && forallb (fun x => x <? base) (ids_of d)
   (* and no suppressed node is still mentioned by the document *)
   && forallb (fun b => negb (existsb (N.eqb b) (ids_of (to_rdf base doc)))) (map snd r).
+Definition roundtrip_ok (t : table) (o : opts) (d : list quad) (base : N) : bool :=
+  roundtrip_doc_ok (info_of t) d base (serialise (info_of t) o d).
+
+(* ---------- literal level: the i18n-datatype shortcut of convert_rdf_object (patch f) ---------- *)
+(* dt_str[NS_18N.len()..].splitn(2, '_') *)
+Fixpoint split_us (s : str) : str * option str :=
+  match s with
+  | [] => ([], None)
+  | c :: r => if c =? 95 then ([], Some r) else let (a, b) := split_us r in (c :: a, b)
+  end.
+Definition is_direction (s : str) : bool := str_eqb s [108; 116; 114] || str_eqb s [114; 116; 108].
+Definition no_upper (s : str) : bool := forallb (fun c => negb ((65 <=? c) && (c <=? 90))) s.
+(* the value object emitted for a literal whose datatype is i18n#suffix, rdf_direction = i18n-datatype:
+   either "@type": the datatype, or "@language" (optional) and "@direction" *)
+Inductive vobj := VTyped (suffix : str) | VDir (lang : option str) (dir : str).
+(* wf_tag stands for LanguageTag::new(tag).is_ok() *)
+Definition i18n_value (wf_tag : str -> bool) (suffix : str) : vobj :=
+  let (tag, od) := split_us suffix in
+  let dir := match od with Some d => d | None => [] end in
+  if is_direction dir && match tag with [] => true | _ => wf_tag tag && no_upper tag end
+  then VDir (match tag with [] => None | _ => Some tag end) dir
+  else VTyped suffix.
+(* reference reader (Object to RDF conversion, steps 13.1-13.2): the datatype suffix read back *)
+Definition i18n_back (v : vobj) : str :=
+  match v with
+  | VTyped s => s
+  | VDir l d => lower (match l with Some t => t | None => [] end) ++ 95 :: d
+  end.
+(* the original code: no validity test; an empty tag or direction is left out *)
+Definition i18n_value_original (suffix : str) : vobj :=
+  let (tag, od) := split_us suffix in
+  VDir (match tag with [] => None | _ => Some tag end) (match od with Some d => d | None => [] end).
+(* reading it back gives an i18n datatype only when there is a valid direction *)
+Definition i18n_back_original (v : vobj) : option str :=
+  match v with
+  | VTyped s => Some s
+  | VDir l d => if is_direction d then Some (i18n_back v) else None
+  end.
+Definition vobj_eqb (a b : vobj) : bool :=
+  match a, b with
+  | VTyped x, VTyped y => str_eqb x y
+  | VDir l d, VDir l' d' => opt_eqb str_eqb l l' && str_eqb d d'
+  | _, _ => false
+  end.
+(* harness: the tag part's well-formedness is reported by sophia's own LanguageTag::new *)
+Definition i18n_ok (wf : bool) (suffix : str) (observed : vobj) : bool :=
+  vobj_eqb (i18n_value (fun _ => wf) suffix) observed.
